@@ -235,7 +235,7 @@ theorem decryptFrame_ok (dec : Dec) (hd : DecContract dec) (k n : Nat) (r : Rd) 
           payload := Buf.mk r.payload.cap 0 (List.replicate m 0), nonce := r.nonce + 1 } := by
         refine ⟨c1, rfl, ?_, c4, ?_, bytes_drop c6 _, c7⟩
         · simp only [List.length_drop]; omega
-        · simp [Buf.reset]; omega
+        · simp; omega
       have := deliver_ok k _ hi'
       cases hres : deliver k { r with
           frame := Buf.mk r.frame.cap 0 (r.frame.content.drop (LENGTH_FIELD_LEN + n)),
@@ -246,7 +246,7 @@ theorem decryptFrame_ok (dec : Dec) (hd : DecContract dec) (k n : Nat) (r : Rd) 
         | data _ _ a b =>
           refine ReadOK.data n' r' a ?_
           unfold mu at b ⊢
-          simp only [List.length_drop, List.length_replicate, Buf.reset] at b
+          simp only [List.length_drop, List.length_replicate] at b
           omega
       | invalid r' =>
         rw [hres] at this
@@ -254,7 +254,7 @@ theorem decryptFrame_ok (dec : Dec) (hd : DecContract dec) (k n : Nat) (r : Rd) 
         | invalid _ a b =>
           refine ReadOK.invalid r' a ?_
           unfold mu at b ⊢
-          simp only [List.length_drop, List.length_replicate, Buf.reset] at b
+          simp only [List.length_drop, List.length_replicate] at b
           omega
       | panic s => rw [hres] at this; cases this
       | fuel => rw [hres] at this; cases this
